@@ -95,6 +95,15 @@ Theorem C06_retain_conserves_keys : forall c keep delta s out s',
   lite s' /\ dks s' ++ map ekid (elems (s_rt s')) ≡ₚ dks s ++ map ekid (elems (s_rt s)).
 Proof. exact T_C06_retain_conserves_keys. Qed.
 
+(* drain_filter, consumed for any number of items and then dropped or forgotten: every key
+   object the map held is afterwards still stored, or in the ledger, or among the yielded
+   elements - exactly once *)
+Theorem C06_drain_filter_conserves_keys : forall c take delta j forget s out s',
+  lite s -> map_drain_filter c take delta j forget s = Ok out s' ->
+  lite s' /\ exists yielded, out = map elem3 yielded /\
+    dks s' ++ map ekid (elems (s_rt s')) ++ map ekid yielded ≡ₚ dks s ++ map ekid (elems (s_rt s)).
+Proof. exact T_C06_drain_filter_conserves_keys. Qed.
+
 (* the hypothesis [lite] holds in every reachable state: it is part of the invariant *)
 Theorem C06_lite_reachable : forall R Esz s,
   Inv R Esz (s_rt s) -> lite s.
@@ -114,4 +123,5 @@ Print Assumptions C06_drop_map_drops_each_once.
 Print Assumptions C06_drain_drops_the_rest_once.
 Print Assumptions C06_into_iter_drops_the_rest_once.
 Print Assumptions C06_retain_conserves_keys.
+Print Assumptions C06_drain_filter_conserves_keys.
 Print Assumptions C06_lite_reachable.
